@@ -54,6 +54,18 @@ func gOptVals(vs []*int) string {
 	return lib.GList(el, "option val")
 }
 
+func gLoads(vs []*int) string {
+	el := make([]string, len(vs))
+	for i, v := range vs {
+		if v == nil {
+			el[i] = "LMissing"
+		} else {
+			el[i] = "LFound " + lib.GZ(int64(*v))
+		}
+	}
+	return lib.GList(el, "lres")
+}
+
 func (e *event) gallina() string {
 	switch e.Kind {
 	case "obs":
@@ -64,7 +76,7 @@ func (e *event) gallina() string {
 				st[i] = lib.GN(uint64(s))
 			}
 			lex = fmt.Sprintf("(Some (LO %s %s %s %s %s))", gLabel(e.Lex.Ctx), gLabel(e.Lex.Loader),
-				gOptVals(e.Lex.Vars), lib.GList(st, "loc"), gOptVals(e.Lex.Loads))
+				gOptVals(e.Lex.Vars), lib.GList(st, "loc"), gLoads(e.Lex.Loads))
 		}
 		return fmt.Sprintf("EObs %s %s %s", gLabel(e.L), gOptLabel(e.Cur), lex)
 	case "panic":
@@ -791,7 +803,7 @@ type outcome struct {
 	tables [2]int
 }
 
-var caseCounter int
+var caseCounter, leaksSeen int
 
 func runCase(cs *Case) *outcome {
 	caseCounter++
@@ -819,7 +831,12 @@ func runCase(cs *Case) *outcome {
 		w.violate("no-fault", "a goroutine did not reach its next step within 20 s")
 	}
 	// the deferred Cleanup of px.Fork runs after the goroutine's last step: give it time
-	deadline := time.Now().Add(3 * time.Second)
+	wait := 5 * time.Second
+	if leaksSeen >= 3 {
+		// the tree leaks tables anyway (already reported three times): do not spend 5 s on every further case
+		wait = 2 * time.Millisecond
+	}
+	deadline := time.Now().Add(wait)
 	for {
 		out.tables[1] = threadlocal.LiveTables()
 		if out.tables[1] == out.tables[0] || time.Now().After(deadline) || out.hung {
@@ -829,6 +846,7 @@ func runCase(cs *Case) *outcome {
 		time.Sleep(50 * time.Microsecond)
 	}
 	if out.tables[1] != out.tables[0] {
+		leaksSeen++
 		w.violate("tls-released", fmt.Sprintf("goroutine-local tables: %d before the case, %d after every goroutine of the case has ended",
 			out.tables[0], out.tables[1]))
 	}
@@ -855,5 +873,9 @@ func (o *outcome) gallina(cs *Case) string {
 		}
 		trs[i] = lib.GList(es, "event")
 	}
-	return "(" + cs.gallinaRoots() + ",\n    " + lib.GList(sc, "nat") + ",\n    " + lib.GList(trs, "list event") + ")"
+	left := o.tables[1] - o.tables[0]
+	if left < 0 {
+		left = 0
+	}
+	return "(" + cs.gallinaRoots() + ",\n    " + lib.GList(sc, "nat") + ",\n    " + lib.GList(trs, "list event") + ",\n    " + lib.GNat(left) + ")"
 }
